@@ -761,3 +761,33 @@ Proof.
     inversion Hin; subst. destruct Hn as [<-|[]]. vm_compute in Hpw. discriminate.
   - intros ts. rewrite exec_app, sP_reached, exec_app, sP_stuck. reflexivity.
 Qed.
+
+(* ------------------------------------------------------------------ "a failed refresh keeps the old map": refuted when
+   the database cannot be opened (EMFILE).  The scan is given nothing and no error, the build "succeeds" with the empty
+   map, and the update installs it: the member that the unchanged databases still list gets "no". *)
+Definition stE0 : gstate := refresh (gids_create 0 0) 10 (Some 5%Z) pwA [(100, [alice])] [].
+
+Lemma silent_open_failure_witness :
+  is_member (g_map stE0) 1000 100 = true /\ member_spec pwA [(100, [alice])] 1000 100 /\
+  map_create pwA (delivered_by_scan false [(100, [alice])]) [] = Some [] /\
+  forall (now : Z) (mtime : option Z),
+    g_map (refresh stE0 now mtime pwA (delivered_by_scan false [(100, [alice])]) []) = Some [] /\
+    is_member (g_map (refresh stE0 now mtime pwA (delivered_by_scan false [(100, [alice])]) [])) 1000 100 = false /\
+    (* with the database opened, the same refresh keeps the answer *)
+    is_member (g_map (refresh stE0 now mtime pwA (delivered_by_scan true [(100, [alice])]) [])) 1000 100 = true.
+Proof.
+  split; [vm_compute; reflexivity|]. split.
+  - exists [alice], alice. split; [left; reflexivity|]. split; [left; reflexivity|].
+    split; [discriminate|]. split; [vm_compute; reflexivity|]. vm_compute. discriminate.
+  - split; [vm_compute; reflexivity|]. intros now mtime.
+    assert (Hd : g_dostat stE0 = 0%Z) by (vm_compute; reflexivity).
+    assert (Hs : should_load stE0 mtime) by (left; rewrite Hd; apply Z.le_refl).
+    split; [|split].
+    + destruct (refresh_loads stE0 now mtime pwA (delivered_by_scan false [(100, [alice])]) [] []) as [H _];
+        [exact Hs|vm_compute; reflexivity|]. rewrite H. vm_compute. reflexivity.
+    + destruct (refresh_loads stE0 now mtime pwA (delivered_by_scan false [(100, [alice])]) [] []) as [H _];
+        [exact Hs|vm_compute; reflexivity|]. rewrite H. vm_compute. reflexivity.
+    + destruct (refresh_loads stE0 now mtime pwA (delivered_by_scan true [(100, [alice])]) []
+                              (build pwA [(100, [alice])])) as [H _];
+        [exact Hs|vm_compute; reflexivity|]. rewrite H. vm_compute. reflexivity.
+Qed.
